@@ -410,6 +410,7 @@ def run(ck):
         'correspondence': {'lines_compared_model_vs_impl': len(cases), 'disagreements': len(corr_bad)},
         'exhaustive': False,
     })
+    ck.notes.append('memory-safety / UB clause: proved on the model (for the patched reader in full, for the reader as is up to four modelled UB classes with counterexamples); on the real code it is observed by sanitizers on the generated inputs only')
     ck.assumptions += [
         'the .sol file exists and is a regular file (Fail_Open is not reachable from byte strings)',
         'the handler only calls ReadNext while Size() > 0 and passes a documented code and a %-free message to SetError',
